@@ -415,6 +415,33 @@ def fam_malformed(g, prefix, n_random):
         out.append(case("%s-%d" % (prefix, i), [["sub", p, NOREACT]])); i += 1
     return out
 
+def fam_rawhot(g, prefix, n_random):
+    """a user-written hot source that pushes into its observers unchecked, also from inside the subscriber's
+    own callbacks (re-entrant emission during a terminal callback) — directly attached and through operators"""
+    out = []
+    i = 0
+    ops = dict(g.ops_int()); ops.update(g.ops_final())
+    acts = (["rnext", "a", "2"], ["rcomplete", "a"], ["rerror", "a", "6"])
+    drives = ([["rnext", "a", "1"], ["rcomplete", "a"], ["rnext", "a", "3"], ["rerror", "a", "5"]],
+              [["rnext", "a", "1"], ["rerror", "a", "5"], ["rcomplete", "a"], ["rnext", "a", "3"]],
+              [["rcomplete", "a"], ["rcomplete", "a"]], [["rerror", "a", "5"], ["rnext", "a", "1"]])
+    for name in ["none"] + sorted(ops):
+        for drive in drives:
+            for idx in ("0", "1", "2"):
+                for act in acts:
+                    if g.r.random() < (1.0 if name == "none" else 0.25):
+                        g.tag = 0
+                        p = ops[name](["ref", "a"]) if name != "none" else ["ref", "a"]
+                        out.append(case("%s-%d" % (prefix, i), [["rawhot", "a"], ["sub", p, ["react", [idx, act]]]] + drive)); i += 1
+    for c in ("merge", "concat", "zip", "amb", "take_until", "skip_until", "sample", "switch_on_next", "combine_latest", "sequence_equal"):
+        for drive in drives[:2]:
+            for act in acts:
+                g.tag = 0
+                p = g.combine_named(c, ["ref", "a"], [["ref", "b"]])
+                steps = [["rawhot", "a"], ["rawhot", "b"], ["sub", p, ["react", ["1", act]]], ["rnext", "b", "7"]] + drive + [["rcomplete", "b"], ["rnext", "b", "8"]]
+                out.append(case("%s-%d" % (prefix, i), steps)); i += 1
+    return out
+
 def fam_unsub_positions(g, prefix, n_pipes):
     """unsubscribe at every position of a hot source's script (before the first item, between events,
     after the terminal, twice) and from inside a callback at every event index of a cold script"""
@@ -424,7 +451,7 @@ def fam_unsub_positions(g, prefix, n_pipes):
         g.tag = 0
         depth = g.r.randint(0, 2)
         p = g.pipe_typed(depth, hot=("a",)) if depth else ["ref", "a"]
-        if "a" not in show(p).split():
+        if "(ref a)" not in show(p):
             p = ["merge", p, ["ref", "a"]] if g.r.random() < 0.5 else ["map", "inc", ["ref", "a"]]
         evs = g.script(4, ending=g.r.choice(["c", "e", "s"]))
         drive = []
@@ -438,6 +465,24 @@ def fam_unsub_positions(g, prefix, n_pipes):
             if g.r.random() < 0.3:
                 steps.append(["unsub", "0"])
             out.append(case("%s-%d" % (prefix, i), steps)); i += 1
+    # subscribers attached DIRECTLY to each kind of hot source (no operator in between), and through one
+    for kind in ("plain", "behavior", "replay", "async"):
+        init = ["0"] if kind == "behavior" else []
+        for p in (["ref", "a"], ["map", "id", ["ref", "a"]], ["take", "5", ["ref", "a"]]):
+            drive = [["hnext", "a", "1"], ["hnext", "a", "2"], ["hcomplete", "a"], ["hnext", "a", "3"]]
+            for pos in range(len(drive) + 1):
+                steps = [["subject", "a", kind] + init, ["sub", p, NOREACT], ["sub", p, NOREACT]] + drive[:pos] + [["unsub", "0"]] + drive[pos:] + [["unsub", "0"], ["unsub", "1"]]
+                out.append(case("%s-%d" % (prefix, i), steps)); i += 1
+            # a sibling unsubscribes subscriber 1 from inside its own callback during the same broadcast
+            steps = [["subject", "a", kind] + init, ["sub", p, ["react", ["1", ["unsub", "1"]]]], ["sub", p, NOREACT],
+                     ["hnext", "a", "1"], ["hnext", "a", "2"], ["hnext", "a", "3"]]
+            out.append(case("%s-%d" % (prefix, i), steps)); i += 1
+    for kind in ("publish", "ref_count", "replay"):
+        for p in (["ref", "x"], ["map", "id", ["ref", "x"]]):
+            pre = [["subject", "a", "plain"], ["conn", "x", kind, ["ref", "a"]], ["sub", p, NOREACT], ["sub", p, NOREACT]] + ([["connect", "x"]] if kind == "publish" else [])
+            drive = [["hnext", "a", "1"], ["hnext", "a", "2"], ["hnext", "a", "3"]]
+            for pos in range(len(drive) + 1):
+                out.append(case("%s-%d" % (prefix, i), pre + drive[:pos] + [["unsub", "0"]] + drive[pos:] + [["unsub", "1"], ["hnext", "a", "0"]])); i += 1
     for j in range(n_pipes):
         g.tag = 0
         p = g.pipe_typed(g.r.randint(0, 2))
@@ -538,6 +583,12 @@ def fam_resubscribe(g, prefix, n_random):
             g.tag = 0
             p = g.combine_named(c, g.cold(evs), [g.cold(g.script(3)), g.cold(g.script(2))])
             out.append(case("%s-%d" % (prefix, i), [["def", "x", p]] + [["sub", ["ref", "x"], NOREACT]] * 3)); i += 1
+    for evs in ([n_(1), e_(5)], [e_(5)], [n_(1), n_(2), e_(6)]):
+        for b in ("1", "2", "3", "4"):
+            for mk in (lambda s: ["retry", b, s], lambda s: ["retry_when", ["lt", "6"], ["take", b, s]],
+                       lambda s: ["on_error_resume_next", ["rs_just", "8"], s], lambda s: ["retry", b, ["map", "inc", s]]):
+                g.tag = 0
+                out.append(case("%s-%d" % (prefix, i), [["def", "x", mk(g.cold(evs))]] + [["sub", ["ref", "x"], NOREACT]] * 3)); i += 1
     # under retry: each attempt is a resubscription of the inner pipeline
     for name in sorted(g.ops_int()):
         g.tag = 0
@@ -697,6 +748,17 @@ def fam_errors(g, prefix, n_random):
             if scripts[-1][-1] != C_:
                 scripts.append([n_(9), e_(6)] if ep != "tt" else [n_(9), C_])
             add([["counter", "k"], ["sub", ["retry_when", ep, ["flaky", "0", "k"] + scripts], NOREACT]])
+    # nested recovery and re-subscription of one recovery pipeline: the budget belongs to a subscription
+    for a in ("1", "2", "3"):
+        for b in ("1", "2", "3"):
+            add([["sub", ["retry", a, ["retry", b, ["cold", "0", n_(1), e_(5)]]], NOREACT]])
+            add([["sub", ["retry_when", ["eq", "5"], ["retry", b, ["cold", "0", n_(1), e_(5)]]], NOREACT]] if a == "1" else
+                [["sub", ["on_error_resume_next", "rs_same", ["retry", b, ["cold", "0", n_(1), e_(5)]]], NOREACT]])
+    for b in ("1", "2", "3", "4"):
+        for src in (["cold", "0", n_(1), e_(5)], ["cold", "0", e_(6)]):
+            add([["def", "x", ["retry", b, src]], ["sub", ["ref", "x"], NOREACT], ["sub", ["ref", "x"], NOREACT], ["sub", ["ref", "x"], NOREACT]])
+            add([["def", "x", ["retry_when", ["lt", "6"], ["take", b, src]]], ["sub", ["ref", "x"], NOREACT], ["sub", ["ref", "x"], NOREACT]])
+            add([["def", "x", ["retry", b, src]], ["sub", ["on_error_resume_next", ["rs_ref", "x"], ["ref", "x"]], NOREACT]])
     for rs in ("rs_empty", "rs_same", "rs_payload", ["rs_just", "8"], ["rs_err", "9"], ["rs_iter", "7", "8"]):
         for pos in range(len(items) + 1):
             g.tag = 0
